@@ -25,9 +25,17 @@ pub fn meta_index(meta: &'static Metadata<'static>) -> (usize, bool) {
         Some(i) => (*i, false),
         None => {
             t.insert(key, n);
+            SITES.get_or_init(Default::default).lock().unwrap().push(Site::from_metadata(meta));
             (n, true)
         }
     }
+}
+
+static SITES: OnceLock<Mutex<Vec<Site>>> = OnceLock::new();
+
+/// Content of the metadata object with interning index `idx`.
+pub fn meta_site(idx: usize) -> Option<Site> {
+    SITES.get_or_init(Default::default).lock().unwrap().get(idx).cloned()
 }
 
 /// One visitor callback, printed as `name kind:payload`.
